@@ -125,13 +125,13 @@ pub fn exec_fmt(case: &str, tag: &str, fmt: &str) -> Exec {
     let bytes = dec_bytes(t.next().unwrap()).unwrap();
     let o = Opts::parse(&level, &flags);
     let r = read(fmt, &o, &bytes);
-    let mut ex = Exec::new("", outcome_tok(&r));
+    let mut ex = Exec::new("", if fmt == "pdb" { outcome_tok(&r) } else { strip_lines(&outcome_tok(&r)) });
     ex.tags.push(format!("kind:{kind}"));
     ex.tags.push(format!("opts:{}:{}", level, flags));
     let text = String::from_utf8(bytes.clone());
     let unsupported = fmt == "pdb" && !o.atomic_only && text.as_ref().map_or(false, |t| split_lines(t).iter().any(|l| l.len() > 6 && l.starts_with("SEQRES")));
     ex.req = match &text {
-        Ok(_) if !unsupported => format!("{} read {} {} {}", fmt, level, flags, enc_bytes(&bytes)),
+        Ok(_) if !unsupported => format!("{} read {} {} {}", if fmt == "pdb" { "pdb" } else { "cif" }, level, flags, enc_bytes(&bytes)),
         _ => "-".into(),
     };
     if text.is_err() { ex.tags.push("invalid-utf8".into()); }
